@@ -1,6 +1,7 @@
 """C04 — access control is complete: refused requests cause no upstream activity."""
 import json
 import os
+import re
 
 from . import common
 
@@ -49,7 +50,17 @@ def classify(case):
     return "unexpected-answer-status-%s:%s" % (st, tags)
 
 
-def run_group_checks(ctx, prop_file, other_files):
+def count_table_obligations(ob_file, failed):
+    """Number of `Lemma ob_*` in the group's obligations file, and how many of them were discharged by this run's make
+    (all, when the file compiled; none otherwise)."""
+    path = os.path.join(common.VERIF, "coq", GROUP, ob_file)
+    if not os.path.exists(path):
+        return 0, 0, []
+    names = re.findall(r"\bLemma\s+(ob_[A-Za-z0-9_']+)", common.strip_coq_comments(open(path).read()))
+    return len(names), (0 if ob_file in failed else len(names)), names
+
+
+def run_group_checks(ctx, prop_file, other_files, ob_file=None):
     """tables + make + forbidden words + property file. Returns (info, ob_failed)."""
     ob_failed = []
     ok, msg = ctx.tables(GROUP)
@@ -73,6 +84,8 @@ def run_group_checks(ctx, prop_file, other_files):
     noted = [f for f in failed if f in other_files]
     if noted:
         ctx.notes.append({"other_files_of_group_not_compiling": noted})
+    n_ob, n_dis, names = count_table_obligations(ob_file, failed) if ob_file else (0, 0, [])
+    info["table_obligations"], info["table_obligations_discharged"], info["table_obligation_names"] = n_ob, n_dis, names
     return info, ob_failed
 
 
@@ -119,7 +132,7 @@ def smallest(cases):
 
 
 def run(ctx):
-    info, ob_failed = run_group_checks(ctx, PROP_FILE, OTHER_FILES)
+    info, ob_failed = run_group_checks(ctx, PROP_FILE, OTHER_FILES, "Obligations.v")
     meta, bad = run_harness(ctx, HARNESS, ob_failed)
 
     n_model_bad = n_prop_bad = 0
@@ -168,8 +181,9 @@ def run(ctx):
     counts = meta.get("shard_case_counts", {})
     evaluations = sum(counts.values()) if counts else 0
     coverage = {
-        "obligations": len(info["theorems"]),
-        "discharged": len(info["discharged"]),
+        "obligations": len(info["theorems"]) + info["table_obligations"],
+        "discharged": len(info["discharged"]) + info["table_obligations_discharged"],
+        "table_obligations": info["table_obligation_names"],
         "checker_cmd": "make -j16 (coq_makefile, full .vo) in coq/lib and coq/g04; coqc C04.v; coqc on %d cases shards (vm_compute)"
                        % len(meta.get("shards", [])),
         "trusted_base": common.standard_trusted_base([
